@@ -29,7 +29,11 @@ RULE = ("histories of 2-5 (thorough: 2-7) class definitions — roots, subclasse
         "create_serializer with serialize_none / compact, instantiation and serialization of the MINIMAL instance "
         "(optional references omitted, arrays of classes empty): these are outside the Lean model's vocabulary and "
         "judged by the fresh-interpreter oracle alone (an explicit create_serializer with flags, and a plain one after "
-        "it, counts as configuration of that class and is replayed in its 'alone' run); plus ~190 directed histories: the two repaired defects, FastSerializable base/subclass/owner triples with the serializers generated in "
+        "it, counts as configuration of that class and is replayed in its 'alone' run); an eighth are classes WRITTEN TO A MODULE FILE on disk (from __future__ import annotations, or quoted references) "
+        "partly at module level, partly inside one or two functions, with class names from a pool of four so that a function-local "
+        "and a module-level class often share a name, fields referring to other classes by name; the prim vocabulary includes "
+        "DateString/TimeString/DateField/TimeField/DateTime/IPV4/HostName/DecimalNumber/JSONString with and without defaults; "
+        "schema_to_struct_code is a history op and part of the fingerprint; plus ~240 directed histories: the two repaired defects, FastSerializable base/subclass/owner triples with the serializers generated in "
         "every order, positional "
         "item classes sharing a mapped field name with the container used before/after the items, every derivation "
         "operator on a class with optional/defaulted/renamed fields, the same class serialized with both "
